@@ -299,21 +299,22 @@ func TestTwoWayDifferential(t *testing.T) {
 		verifhook.InstallClock(time.Unix(1_700_000_000+int64(rapid.IntRange(0, 1_000_000).Draw(t, "clock")), 0))
 		defer verifhook.RemoveClock()
 		now := verifhook.Now().Unix()
+		refBase := now // the reference's rows are stamped relative to the start, before anything the SDK creates later
 
 		// ---- reference writes -> SDK reads ------------------------------------------
 		refWrite := func() {
 			// an older, revoked generation and a current one
-			skOld, skOldRow := kit.RefNewSK(refKMSWrap, now-7200)
+			skOld, skOldRow := kit.RefNewSK(refKMSWrap, refBase-7200)
 			skOldRow.Revoked = true
-			ikOld, ikOldRow, _ := kit.RefNewIK(skOld, skID, now-7200, now-7100)
+			ikOld, ikOldRow, _ := kit.RefNewIK(skOld, skID, refBase-7200, refBase-7100)
 			ikOldRow.Revoked = rapid.Bool().Draw(t, "oldIKRevoked")
-			sk, skRow := kit.RefNewSK(refKMSWrap, now-600)
-			ik, ikRow, _ := kit.RefNewIK(sk, skID, now-600, now-500)
+			sk, skRow := kit.RefNewSK(refKMSWrap, refBase-600)
+			ik, ikRow, _ := kit.RefNewIK(sk, skID, refBase-600, refBase-500)
 			for _, w := range []struct {
 				id      string
 				created int64
 				row     kit.RefEKR
-			}{{skID, now - 7200, skOldRow}, {ikID, now - 7100, ikOldRow}, {skID, now - 600, skRow}, {ikID, now - 500, ikRow}} {
+			}{{skID, refBase - 7200, skOldRow}, {ikID, refBase - 7100, ikOldRow}, {skID, refBase - 600, skRow}, {ikID, refBase - 500, ikRow}} {
 				if err := c.put(w.id, w.created, w.row); err != nil {
 					t.Fatalf("harness: reference write to %s failed: %v", c.name, err)
 				}
@@ -329,8 +330,8 @@ func TestTwoWayDifferential(t *testing.T) {
 				name    string
 				ik      []byte
 				created int64
-			}{{"current generation", ik, now - 500}, {"old (revoked) generation", ikOld, now - 7100}} {
-				d, err := kit.RefEncrypt(g.ik, ikID, g.created, now-10, payload)
+			}{{"current generation", ik, refBase - 500}, {"old (revoked) generation", ikOld, refBase - 7100}} {
+				d, err := kit.RefEncrypt(g.ik, ikID, g.created, refBase-10, payload)
 				if err != nil {
 					t.Fatalf("harness: %v", err)
 				}
@@ -367,8 +368,8 @@ func TestTwoWayDifferential(t *testing.T) {
 			if err != nil {
 				bad("encrypt over reference-written rows failed: %v", err)
 			}
-			if r.Key.ParentKeyMeta.ID != ikID || r.Key.ParentKeyMeta.Created != now-500 {
-				bad("the SDK did not adopt the valid reference-written IK (%s,%d) but used (%s,%d)", ikID, now-500, r.Key.ParentKeyMeta.ID, r.Key.ParentKeyMeta.Created)
+			if r.Key.ParentKeyMeta.ID != ikID || r.Key.ParentKeyMeta.Created != refBase-500 {
+				bad("the SDK did not adopt the valid reference-written IK (%s,%d) but used (%s,%d)", ikID, refBase-500, r.Key.ParentKeyMeta.ID, r.Key.ParentKeyMeta.Created)
 			}
 		}
 
